@@ -357,10 +357,58 @@ func (ex *Exec) opaqueMethod(o *OpaqueV, name string, args []Value) Value {
 	panic(unsupported("method " + name + " on opaque " + o.Kind))
 }
 
-// fmtString renders the format concretely where possible (only used as an opaque label).
+// fmtString renders the format concretely when every verb is %s/%d/%v applied to a concrete
+// string or integer (metric names and tags are built this way); otherwise an opaque label.
 func (ex *Exec) fmtString(f Value, args Value) string {
-	s, _ := f.(string)
-	return "<fmt:" + s + ">"
+	format, _ := f.(string)
+	sl, ok := args.(*SliceV)
+	var vals []string
+	if ok && sl.Arr != nil {
+		for i := 0; i < sl.Len; i++ {
+			el := ex.rawLoad((&Ptr{Obj: sl.Arr}).child(sl.Off + i))
+			iv, isI := el.(*IfaceV)
+			if !isI {
+				return "<fmt:" + format + ">"
+			}
+			switch x := iv.V.(type) {
+			case string:
+				vals = append(vals, x)
+			case *Term:
+				if !x.IsConst() || x.Sort.Kind != KInt {
+					return "<fmt:" + format + ">"
+				}
+				vals = append(vals, x.String())
+			default:
+				return "<fmt:" + format + ">"
+			}
+		}
+	}
+	var sb strings.Builder
+	vi := 0
+	for i := 0; i < len(format); i++ {
+		c := format[i]
+		if c != '%' || i+1 >= len(format) {
+			sb.WriteByte(c)
+			continue
+		}
+		i++
+		switch format[i] {
+		case '%':
+			sb.WriteByte('%')
+		case 's', 'd', 'v':
+			if vi >= len(vals) {
+				return "<fmt:" + format + ">"
+			}
+			sb.WriteString(vals[vi])
+			vi++
+		default:
+			return "<fmt:" + format + ">"
+		}
+	}
+	if vi != len(vals) {
+		return "<fmt:" + format + ">"
+	}
+	return sb.String()
 }
 
 // fmtArgs models fmt's reflection on its arguments: Stringer/error arguments have
